@@ -47,6 +47,13 @@ func TestVerif(t *testing.T) {
 }
 
 var registry = map[string]func(t *testing.T, c *Collector){
+	"C16": func(t *testing.T, c *Collector) {
+		c.res.Rule = "schedules (<= bound preemptions at lock-acquisition and file-system-call granularity) of 2-3 threads drawn from Put/Get/Has/GetSize/Remove/Flush/iteration/storage-size queries/file-cache resizing and index-GC / primary-GC cycles, executed in a -race build on the real file system with a scheduler hand-off the race detector cannot see (plain memory in go:norace functions), so that along every schedule only the program's own synchronisation orders accesses; every DATA RACE report is a violation, fingerprinted by the two access sites; non-trivial = every execution (all have >= 2 threads on shared state)"
+		scs := c16Scenarios(c.job.Tier)
+		c.res.Bound = fmt.Sprintf("%d scenarios, preemption bound %d", len(scs), scs[0].Bound)
+		runConcScenarios(t, c, scs)
+		c.res.Engine = "R (schedule enumerator in a -race build with a detector-invisible hand-off, real file system)"
+	},
 	"C10": func(t *testing.T, c *Collector) {
 		c.res.Rule = "legacy stores (version-2 single-file index, unversioned single-file primary, legacy freelist present or absent, primary tail cut off or not) generated from a set of histories with overwrites and removals; opened with every combination of index/primary file-size limits from {1,40,64,default}: contents must equal the generating map (cut-off keys absent), through a continuation with GC and a rescan reopen; every crash point and torn write of the upgrading open: reopening must complete the upgrade with the same contents; non-trivial = stores with >= 2 keys, plus torn images"
 		runC10Seq(c)
